@@ -8,6 +8,7 @@ package main
 
 import (
 	"fmt"
+	"os"
 	"go/constant"
 	"go/token"
 	"go/types"
@@ -15,6 +16,8 @@ import (
 
 	"golang.org/x/tools/go/ssa"
 )
+
+var traceFns = os.Getenv("GOSYM_TRACE_FN") != ""
 
 type unsupportedErr struct{ msg string }
 
@@ -229,6 +232,9 @@ func (c *Ctx) runFunction(caller *Frame, fn *ssa.Function, args []Value, env []V
 	}
 	defer func() { c.depth-- }()
 	c.noteFn(fn)
+	if traceFns && c.sched != nil && c.w.isRepoFn(fn) {
+		c.sched.note("g%d:call %s", c.sched.cur.id, fn.Name())
+	}
 	fr := c.newFrame(caller, fn, args, env)
 	return c.runFrame(fr)
 }
